@@ -123,17 +123,29 @@ Qed.
 
 (* ------------------------------------------------------------------ exhaustion *)
 Definition exc_step (s0 s' : state) : Prop :=
-  fin_exc s' = fin_exc s0 \/ (exists x, fin_exc s' = Some x /\ forall e, x <> XNoHost e)
-  \/ (fin_exc s' = Some (XNoHost (errors s')) /\ plan s' = []).
+  fin_exc s' = fin_exc s0 \/ (exists x, fin_exc s' = Some x /\ x <> XNoHost)
+  \/ (fin_exc s' = Some XNoHost /\ plan s' = []).
 
 Lemma walk_exc s b s' ev : send_request s b = (s', ev) -> exc_step s s'.
 Proof.
   intros W. apply walk_walked in W.
-  destruct W as [sk h rest Hp Hsk Hh Hplan Hcons Hev Hatt Hexc Harm | Hsk Hplan Hcons Hev Hatt Hexc Harm].
+  destruct W as [sk h rest Hp Hsk Hh Hplan Hcons Hev Hatt Hexc Harm | Hsk Hplan Hcons Hev Hatt Hexc Harm
+                | sk rest Hp Hne Hsk Hplan Hcons Hev Hatt Hel Hexc Harm].
   - left. exact Hexc.
   - destruct b; [|left; exact Hexc]. cbn [andb] in Hexc. destruct (completed s); cbn [negb] in Hexc; [left; exact Hexc|].
     right; right. split; [exact Hexc|]. rewrite Hplan. destruct (plan s); reflexivity.
+  - destruct (borrowed s' && negb (completed s)); [|left; exact Hexc].
+    right; left. exists XTimeout. split; [exact Hexc|discriminate].
 Qed.
+
+Lemma on_timeout_exc_step s : exc_step s (on_timeout s).
+Proof.
+  destruct (on_timeout_exc s) as (E & _). destruct (borrowed s && negb (completed s)); [|left; exact E].
+  right; left. exists XTimeout. split; [exact E|discriminate].
+Qed.
+
+Lemma exc_step_post s0 s1 s2 : fin_exc s2 = fin_exc s1 -> plan s2 = plan s1 -> exc_step s0 s1 -> exc_step s0 s2.
+Proof. intros E P [G|[(x & G & N)|(G & Q)]]; [left; congruence|right; left; exists x; split; [congruence|exact N]|right; right; split; congruence]. Qed.
 
 Lemma query_exc s h m cz s1 ev ok : query s h m cz = (s1, ev, ok) -> fin_exc s1 = fin_exc s.
 Proof. rewrite query_eq. destruct (reason (pool_of s h)); intros H; inversion H; subst; reflexivity. Qed.
@@ -149,7 +161,7 @@ Proof.
   eapply exc_step_pre; [exact Q|eapply walk_exc; eauto].
 Qed.
 
-Lemma fail_with_exc_step s x : (forall e, x <> XNoHost e) -> exc_step s (fail_with s x).
+Lemma fail_with_exc_step s x : x <> XNoHost -> exc_step s (fail_with s x).
 Proof.
   intros N. destruct (fail_with_exc s x) as [E _]. destruct (completed s).
   - left. exact E.
@@ -160,7 +172,7 @@ Lemma finish_with_exc_step s r : exc_step s (finish_with s r).
 Proof. left. apply finish_with_res. Qed.
 
 Definition exc2 (e0 : option fexc) (s' : state) : Prop :=
-  fin_exc s' = e0 \/ (exists x, fin_exc s' = Some x /\ forall e, x <> XNoHost e).
+  fin_exc s' = e0 \/ (exists x, fin_exc s' = Some x /\ x <> XNoHost).
 
 Lemma exc2_step s s' : exc2 (fin_exc s) s' -> exc_step s s'.
 Proof. intros [E|E]; [left; exact E|right; left; exact E]. Qed.
@@ -169,7 +181,7 @@ Lemma submit_exc2 s t : exc2 (fin_exc s) (submit s t).
 Proof.
   unfold submit. destruct (session_shut s); [|left; reflexivity].
   destruct (fail_with_exc s XShutdown) as [E _]. destruct (completed s); [left; exact E|].
-  right. exists XShutdown. split; [exact E|intros e0; discriminate].
+  right. exists XShutdown. split; [exact E|discriminate].
 Qed.
 
 Lemma bump_exc2 s dcl t : exc2 (fin_exc s) (bump_retry s dcl t).
@@ -181,7 +193,7 @@ Qed.
 Lemma submit_exc_step s t : exc_step s (submit s t).
 Proof. apply exc2_step, submit_exc2. Qed.
 
-Ltac other_exc := first [apply fail_with_exc_step; intros e0; discriminate | apply finish_with_exc_step
+Ltac other_exc := first [apply fail_with_exc_step; discriminate | apply finish_with_exc_step
                          | left; exact (proj2 (finish_rows_res _ _))].
 
 Lemma set_result_exc c s h r s' ev : set_result c s h r = (s', ev) -> exc_step s s'.
@@ -193,7 +205,7 @@ Proof.
     + apply exc2_step. exact (bump_exc2 (tick_consult s) dcl (TRetry true h)).
     + destruct (fail_with_exc (tick_consult s) (XResp k tag)) as [E _].
       change (completed (tick_consult s)) with (completed s) in E.
-      destruct (completed s); [left; exact E|]. right; left. exists (XResp k tag). split; [exact E|intros e0; discriminate].
+      destruct (completed s); [left; exact E|]. right; left. exists (XResp k tag). split; [exact E|discriminate].
     + left. exact (proj2 (finish_with_res (tick_consult s) FNone)).
     + apply exc2_step. exact (bump_exc2 (tick_consult s) dcl (TRetry false h)).
   - unfold unprepared in H.
@@ -220,6 +232,15 @@ Proof.
     eapply exc_step_pre; [|eapply walk_exc; eauto]. reflexivity.
 Qed.
 
+Lemma run_task_exc c s t s' ev : run_task c s t = (s', ev) -> exc_step s s'.
+Proof.
+  intros H. destruct t as [reuse h|h qs ks0|h r]; cbn [run_task] in H.
+  - destruct (is_some (fin_exc s)); [inversion H; subst; left; reflexivity|].
+    destruct reuse; [eapply qon_exc; eauto|eapply walk_exc; eauto].
+  - eapply qon_exc; eauto.
+  - eapply after_prepare_exc; eauto.
+Qed.
+
 Lemma step_exc c s o s' ev : is_next_page o = false -> step c s o = (s', ev) -> exc_step s s'.
 Proof.
   intros NP H. destruct o as [|i r|k| |h0 p|k|pp]; cbn [step] in H; [| | | | | |discriminate].
@@ -228,7 +249,10 @@ Proof.
     destruct (a_done a); [inversion H; subst; left; reflexivity|].
     destruct (a_prep a); [inversion H; subst; exact (submit_exc_step (set_attempts s (mark_done i (attempts s))) _)|].
     destruct (Nat.eqb (a_page a) (page_no s)); [|inversion H; subst; left; reflexivity].
-    apply set_result_exc in H. eapply exc_step_pre; [|exact H]. reflexivity.
+    destruct (resp_current_cases _ _ _ _ _ _ H) as [H'|(k & tag & dcl & reuse & s2 & ev2 & -> & I & Pl & F & Sh & R & -> & ->)].
+    + apply set_result_exc in H'. eapply exc_step_pre; [|exact H']. reflexivity.
+    + apply run_task_exc in R. apply (exc_step_post s s2); [reflexivity|reflexivity|].
+      eapply exc_step_pre; [|exact R]. reflexivity.
   - destruct (nth_error (queue s) k) as [t|]; [|inversion H; subst; left; reflexivity].
     assert (G : exc_step (set_queue s (remove_nth k (queue s))) s').
     { destruct t as [reuse h|h qs ks0|h r]; cbn [run_task] in H.
@@ -241,27 +265,29 @@ Proof.
     destruct (negb (spec_armed s)); [inversion H; subst; left; reflexivity|].
     destruct (completed (set_spec s false (spec_left s))); [inversion H; subst; left; reflexivity|].
     destruct (attempts (set_spec s false (spec_left s))); [inversion H; subst; left; reflexivity|].
+    destruct (elapsed (set_spec s false (spec_left s))).
+    { inversion H; subst. apply (exc_step_pre s (set_spec s false (spec_left s))); [reflexivity|apply on_timeout_exc_step]. }
     destruct (send_request (set_spec s false (spec_left s)) false) as [s1 ev1] eqn:W. inversion H; subst.
-    apply walk_walked in W.
-    destruct W as [sk h rest Hp Hsk Hh Hplan Hcons Hev Hatt Hexc Harm | Hsk Hplan Hcons Hev Hatt Hexc Harm];
-      left; unfold start_timer; destruct (spec_armed s1); try destruct (0 <? spec_left s1); exact Hexc.
+    apply walk_exc in W. apply (exc_step_pre s (set_spec s false (spec_left s))); [reflexivity|].
+    apply (exc_step_post _ s1); [| |exact W];
+      unfold start_timer; destruct (spec_armed s1); try destruct (0 <? spec_left s1); reflexivity.
   - inversion H; subst. left; reflexivity.
   - inversion H; subst. left; reflexivity.
 Qed.
 
 (* NoHostAvailable appears only when a send_request ran off the end of the plan, and carries _errors as of then *)
-Lemma nohost_only_when_exhausted c s o s' ev errs : step c s o = (s', ev) -> fin_exc s' = Some (XNoHost errs) ->
-  fin_exc s = Some (XNoHost errs) \/ (errs = errors s' /\ plan s' = []).
+Lemma nohost_only_when_exhausted c s o s' ev : step c s o = (s', ev) -> fin_exc s' = Some XNoHost ->
+  fin_exc s = Some XNoHost \/ plan s' = [].
 Proof.
   intros H E. destruct (is_next_page o) eqn:NP.
   - destruct o; try discriminate. cbn [step] in H. destruct (paging s); [|inversion H; subst; left; exact E].
     destruct (page_start_fields c s p) as (_ & _ & _ & _ & E0 & _).
     destruct (walk_exc _ _ _ _ H) as [G|[(x & G & N)|(G & P)]].
     + congruence.
-    + exfalso. rewrite G in E. inversion E; subst. eapply N; reflexivity.
-    + right. rewrite G in E. inversion E; subst. auto.
+    + exfalso. rewrite G in E. inversion E; subst. apply N; reflexivity.
+    + right. exact P.
   - destruct (step_exc _ _ _ _ _ NP H) as [G|[(x & G & N)|(G & P)]].
     + left. congruence.
-    + exfalso. rewrite G in E. inversion E; subst. eapply N; reflexivity.
-    + right. rewrite G in E. inversion E; subst. auto.
+    + exfalso. rewrite G in E. inversion E; subst. apply N; reflexivity.
+    + right. exact P.
 Qed.
